@@ -44,6 +44,7 @@ def run(repo, rep, tier):
     _table(repo, rep)
     _order(repo, rep)
     _mode(repo, rep)
+    L.state_rule(repo, rep)
 
 
 def _table(repo, rep):
